@@ -1181,3 +1181,131 @@ def _c07_check(case):
 StandIn("c07_chunked_proximity", _c07_cases, _c07_check,
         bound="random rasters 2..6 x 2..6, every random composition of H and W as chunks, max_distance in {inf, 0.5..2.5 cells} "
               "(halo within the raster), both metrics, proximity/allocation/direction, ascending/descending y, non-square cells")
+
+
+# =========================================================================== C14 A* path finding
+def _dijkstra(a, s, g, conn, crossable):
+    import heapq
+    H, W = a.shape
+    if not crossable(a[s]) or not crossable(a[g]):
+        return None
+    nb = [(0, 1), (1, 0), (0, -1), (-1, 0)] + ([(1, 1), (1, -1), (-1, 1), (-1, -1)] if conn == 8 else [])
+    Dm = {s: 0.0}
+    pq = [(0.0, s)]
+    while pq:
+        d, u = heapq.heappop(pq)
+        if d > Dm[u]:
+            continue
+        if u == g:
+            return d
+        for dy, dx in nb:
+            v = (u[0] + dy, u[1] + dx)
+            if 0 <= v[0] < H and 0 <= v[1] < W and crossable(a[v]):
+                nd = d + math.hypot(dy, dx)
+                if nd < Dm.get(v, np.inf) - 1e-12:
+                    Dm[v] = nd
+                    heapq.heappush(pq, (nd, v))
+    return None
+
+
+def _c14_cases(rng, tier, exhaustive=False):
+    if exhaustive:
+        H = W = 3
+        for bits in range(2 ** 9):
+            cells = [(bits >> k) & 1 for k in range(9)]
+            for s in itertools.product(range(H), range(W)):
+                for g in itertools.product(range(H), range(W)):
+                    for conn in (4, 8):
+                        yield {"H": 3, "W": 3, "cells": cells, "s": list(s), "g": list(g), "conn": conn, "ystep": 1.0, "xstep": 1.0,
+                               "yoff": 0.0, "xoff": 0.0, "ydesc": True, "snap": False, "frac": [0.0, 0.0, 0.0, 0.0]}
+        return
+    while True:
+        H, W = rng.randint(2, 6), rng.randint(2, 6)       # a resolution needs at least two coordinates per axis
+        dens = rng.choice([0.2, 0.4, 0.6])
+        cells = [rng.choice([0, "nan"]) if rng.random() < dens else rng.choice([1, 2, 3]) for _ in range(H * W)]
+        step = rng.choice([1.0, 0.1, 0.25, 3.0, 0.7])
+        yield {"H": H, "W": W, "cells": cells, "s": [rng.randrange(H), rng.randrange(W)], "g": [rng.randrange(H), rng.randrange(W)],
+               "conn": rng.choice([4, 8]), "ystep": step, "xstep": rng.choice([step, 2.0, 0.3]),
+               "yoff": rng.choice([0.0, -7.7, 100.3]), "xoff": rng.choice([0.0, 5.5, -0.45]), "ydesc": rng.random() < 0.5,
+               "snap": rng.random() < 0.4,
+               # fractional offsets of the requested points from the cell centres (strictly inside the cell)
+               "frac": [rng.choice([0.0, 0.0, 0.3, -0.3, 0.45, -0.45]) for _ in range(4)]}
+
+
+_c14_ex = lambda rng, tier: _c14_cases(rng, tier, True)
+_c14_ex.exhaustive = True
+
+
+def _c14_check(case):
+    import warnings
+    import xarray as xr
+    from xrspatial import a_star_search
+    H, W = case["H"], case["W"]
+    a = np.array([np.nan if c == "nan" else float(c) for c in case["cells"]], dtype="float64").reshape(H, W)
+    ys = case["yoff"] + np.arange(H) * case["ystep"]
+    if case["ydesc"]:
+        ys = ys[::-1].copy()
+    xs = case["xoff"] + np.arange(W) * case["xstep"]
+    r = xr.DataArray(a, dims=["y", "x"], coords={"y": ys, "x": xs})
+    s, g = tuple(case["s"]), tuple(case["g"])
+    f = case["frac"]
+    start = (ys[s[0]] + f[0] * case["ystep"], xs[s[1]] + f[1] * case["xstep"])
+    goal = (ys[g[0]] + f[2] * case["ystep"], xs[g[1]] + f[3] * case["xstep"])
+    crossable = lambda v: not np.isnan(v) and v != 0
+    with warnings.catch_warnings():
+        warnings.simplefilter("ignore")
+        try:
+            p = a_star_search(r, start, goal, barriers=[0], connectivity=case["conn"], snap_start=case["snap"], snap_goal=case["snap"]).data
+        except ValueError as e:
+            if H > 1 or W > 1:
+                return "a_star_search raised %r for points inside the raster (start cell %r, goal cell %r)" % (e, s, g)
+            return None
+    # the named cells are the ones whose centre is nearest; snapping moves to the nearest crossable cell
+    def snap(c):
+        if crossable(a[c]) or not case["snap"]:
+            return [c]
+        cand = [(math.hypot(i - c[0], j - c[1]), (i, j)) for i in range(H) for j in range(W) if crossable(a[i, j])]
+        if not cand:
+            return []
+        dmin = min(cand)[0]
+        return [q for d, q in cand if abs(d - dmin) < 1e-9]
+    S, G = snap(s), snap(g)
+    best = None
+    for s2 in S:
+        for g2 in G:
+            e = _dijkstra(a, s2, g2, case["conn"], crossable)
+            # the implementation snaps deterministically; accept any nearest crossable cell
+            if e is not None and not np.isnan(p[g2]) and abs(p[g2] - e) < 1e-9 and p[s2] == 0 and \
+                    np.unravel_index(np.nanargmax(p), p.shape) == g2:
+                best = (s2, g2, e)
+    # ties between equally near crossable cells may be broken either way: the result must be right for one choice
+    if best is None:
+        if np.isnan(p).all() and (not S or not G or any(_dijkstra(a, s2, g2, case["conn"], crossable) is None for s2 in S for g2 in G)):
+            return None
+        if not S or not G or all(_dijkstra(a, s2, g2, case["conn"], crossable) is None for s2 in S for g2 in G):
+            return "no route exists (start cell %r, goal cell %r, snap=%s) but the result is not all-NaN: %r" % (s, g, case["snap"], p.tolist())
+        return ("route exists from cell %r to cell %r (requested points %r -> %r, coords y=%r x=%r, snap=%s) but the result has "
+                "start/goal values %r / %r; expected shortest length %r" % (
+                    s, g, start, goal, ys.tolist(), xs.tolist(), case["snap"], [p[q] for q in S], [p[q] for q in G],
+                    [_dijkstra(a, s2, g2, case["conn"], crossable) for s2 in S for g2 in G]))
+    s2, g2, e = best
+    # the non-NaN cells form one chain from start to goal: neighbour steps adding exactly the step length, never through barriers
+    cells = sorted([(p[i, j], (i, j)) for i in range(H) for j in range(W) if not np.isnan(p[i, j])])
+    if cells[0][1] != s2 or cells[-1][1] != g2:
+        return "path does not run from the start cell to the goal cell: %r" % cells
+    for (d0, c0), (d1, c1) in zip(cells, cells[1:]):
+        dy, dx = abs(c1[0] - c0[0]), abs(c1[1] - c0[1])
+        if max(dy, dx) != 1 or (case["conn"] == 4 and dy + dx != 1):
+            return "consecutive path cells %r -> %r are not %d-neighbours" % (c0, c1, case["conn"])
+        if abs((d1 - d0) - math.hypot(dy, dx)) > 1e-9:
+            return "step %r -> %r adds %r, not its length" % (c0, c1, d1 - d0)
+        if not crossable(a[c1]):
+            return "path enters a barrier / NaN cell %r" % (c1,)
+    return None
+
+
+StandIn("c14_a_star_small_grids", _c14_ex, _c14_check,
+        bound="every barrier layout x start x goal x connectivity on 3x3 (82 944 cases) against Dijkstra")
+StandIn("c14_a_star_random", _c14_cases, _c14_check,
+        bound="random surfaces up to 6x6 with barriers and NaN, 4/8-connectivity, ascending/descending and fractional-step coordinates "
+              "with offsets, requested points up to 0.45 cells off the centres, snapping on/off; against Dijkstra")
